@@ -16,7 +16,7 @@ import (
 	"github.com/prometheus/prometheus/promql/parser"
 	"github.com/prometheus/prometheus/storage"
 	"github.com/prometheus/prometheus/tsdb/chunkenc"
-	"verif/harness/fakes"
+	fakes "verif/harness/fakes17"
 	"verif/harness/h"
 )
 
